@@ -12,6 +12,7 @@ package main
 import (
 	"fmt"
 	"go/ast"
+	"go/constant"
 	"go/token"
 	"sort"
 	"strings"
@@ -149,4 +150,80 @@ func (c *Ctx) RequireAtEnd(rule, key string, fn *FuncInfo, scope *ast.BlockStmt,
 		}
 	}
 	return c.OK(rule, key, c.P.Pos(last), fn.Key(), desc)
+}
+
+// RequireAnyOf: at target, at least one of the alternatives holds. Alternatives that do not
+// type-check at the target (they mention a name that is not in scope there) are dropped — what
+// they talk about cannot be the reason this point is reached; with none left the obligation is
+// violated.
+func (c *Ctx) RequireAnyOf(rule, key string, fn *FuncInfo, target ast.Node, alts []string) *Obligation {
+	desc := strings.Join(alts, "  ∨  ")
+	return c.RequireF(rule, key, fn, target, desc, func(e *FactEngine) (*Formula, error) {
+		f := fF
+		n := 0
+		for _, a := range alts {
+			g, err := e.ParseReq(a, target.Pos())
+			if err != nil {
+				continue
+			}
+			n++
+			f = mkOr(f, g)
+		}
+		if n == 0 {
+			return fF, nil
+		}
+		return f, nil
+	})
+}
+
+// returnsOf lists the return statements of fn's own body (function literals excluded).
+func returnsOf(fn *FuncInfo) []*ast.ReturnStmt {
+	var out []*ast.ReturnStmt
+	var walk func(n ast.Node)
+	walk = func(n ast.Node) {
+		ast.Inspect(n, func(m ast.Node) bool {
+			switch t := m.(type) {
+			case *ast.FuncLit:
+				return false
+			case *ast.ReturnStmt:
+				out = append(out, t)
+			}
+			return true
+		})
+	}
+	walk(fn.Decl.Body)
+	return out
+}
+
+// ResultOnlyUnder: result idx of fn is `val` (a boolean) only where one of alts holds. For a
+// return whose result is not a constant the obligation is (result == val) ⇒ alternatives.
+func (c *Ctx) ResultOnlyUnder(rule, what string, fn *FuncInfo, idx int, val bool, alts []string) int {
+	info := fn.Info()
+	n := 0
+	for _, r := range returnsOf(fn) {
+		if idx >= len(r.Results) {
+			c.Undec(rule, what, c.P.Pos(r), fn.Key(), "", "bare return: result not visible")
+			continue
+		}
+		x := r.Results[idx]
+		if tv := info.Types[x]; tv.Value != nil {
+			if constant.BoolVal(tv.Value) != val {
+				continue
+			}
+			n++
+			c.RequireAnyOf(rule, what, fn, r, alts)
+			continue
+		}
+		n++
+		xs := exprString(x)
+		if !val {
+			xs = "!(" + xs + ")"
+		}
+		var wrapped []string
+		for _, a := range alts {
+			wrapped = append(wrapped, "!("+xs+") || ("+a+")")
+		}
+		c.RequireAnyOf(rule, what, fn, r, wrapped)
+	}
+	return n
 }
